@@ -325,7 +325,7 @@ class ParseContext:
         avoid_class_mutation=True)
     if original is not None:  # We've re-registered something...
       for reference in iterate_references(_CONFIG, to=original.wrapper):
-        reference.initialize()
+        reference.initialize(_INVERSE_REGISTRY[fn_or_cls])
 
     if inspect.isfunction(fn_or_cls) and inspect.isclass(path_attrs[-1]):  # pytype: disable=not-supported-yet
       self._register(attr_names[:-1], attr_values[:-1])
@@ -722,9 +722,14 @@ class ConfigurableReference:
     self._evaluate = evaluate
     self.initialize()
 
-  def initialize(self):
+  def initialize(self, configurable_=None):
     *self._scopes, self._selector = self._scoped_selector.split('/')
-    self._configurable = _parse_context().get_configurable(self._selector)
+    # When the referenced function or class has been registered again, the new
+    # registration is handed in: the name this reference was written with
+    # belongs to the file it was written in, which need not be the one being
+    # parsed now.
+    self._configurable = (
+        configurable_ or _parse_context().get_configurable(self._selector))
     if not self._configurable:
       _raise_unknown_reference_error(self)
     self._scoped_configurable_fn = _decorate_with_scope(
